@@ -22,7 +22,7 @@ open Driver ScionTime.Unixutil ScionTime.CsptpConv ScionTime.FreqDrift
       -> ok ts=<unix ns> off=<ns> c2s=<ns> s2c=<ns> mpd=<ns> | err <verdict>
       (a recorded live exchange: t0/t3 are the client's kernel timestamps, sync/fu the two response
        datagrams the scripted responder sent; the answer is what the real client returned and logged)
-  csptpcli.run <responder parameters…>       -> ok doff=0 dmpd=0 ds2c=0
+  csptpcli.run <responder parameters…>       -> ok doff=0 dmpd=0 ds2c=0 dlog=0
       (a live exchange whose result the harness compares with the exact formulas evaluated on the
        values the responder chose: the model's claim for EVERY exchange is zero deviation —
        Props/C18Client.lean, C18_client_offset_exact)
@@ -55,7 +55,7 @@ def csptpEval (toks : List String) : String :=
 def step (_ : Unit) (toks : List String) : Unit × String :=
   match toks with
   | "csptpcli.eval" :: rest => if rest.length = 5 then ((), csptpEval rest) else ((), "bad-op")
-  | "csptpcli.run" :: _ :: _ => ((), "ok doff=0 dmpd=0 ds2c=0")
+  | "csptpcli.run" :: _ :: _ => ((), "ok doff=0 dmpd=0 ds2c=0 dlog=0")
   | ["ux.timeval", n] =>
     match i64? n with
     | some n => let tv := timevalFromNsec n; ((), s!"ok {tv.sec.toInt} {tv.usec.toInt}")
